@@ -103,3 +103,36 @@ Fixpoint decode_seq (hdr : nat) (ts : list dtype) (bs : bytes) : result (list va
   | [] => Ok ([], bs)
   | t :: r => '(v, rest) <- decode hdr t bs ;; '(vs, rest') <- decode_seq hdr r rest ;; Ok (v :: vs, rest')
   end.
+
+(* ---- a lower bound on what a successful decode consumes ---- *)
+Fixpoint min_size (t : dtype) : nat :=
+  match t with
+  | TUInt w | TInt w => w
+  | TF32 => 4%nat | TF64 => 8%nat | TVec n => n
+  | TString | TBlob | TPython => 1%nat
+  | TMailbox => 6%nat
+  | TArray e None => 1%nat
+  | TArray e (Some n) => (n * min_size e)%nat
+  | TDict fs an =>
+      let body := (fix go (fl : list (string * dtype)) : nat := match fl with [] => O | (_, t') :: r => (min_size t' + go r)%nat end) fs in
+      if an then Nat.min 1 body else body
+  | TUser inner => min_size inner
+  end.
+
+
+(* array element types (at any depth) from which a successful decode may consume nothing: on those the element loop of
+   a nested update (`while io.tell() != len(rest)`) would not terminate *)
+Fixpoint zero_size_elems (t : dtype) : list dtype :=
+  match t with
+  | TArray e _ => (if Nat.eqb (min_size e) 0 then [e] else []) ++ zero_size_elems e
+  | TDict fs _ => (fix go (fl : list (string * dtype)) : list dtype := match fl with [] => [] | (_, t') :: r => zero_size_elems t' ++ go r end) fs
+  | TUser i => zero_size_elems i
+  | _ => []
+  end.
+Fixpoint count_arrays (t : dtype) : nat :=
+  match t with
+  | TArray e _ => S (count_arrays e)
+  | TDict fs _ => (fix go (fl : list (string * dtype)) : nat := match fl with [] => O | (_, t') :: r => (count_arrays t' + go r)%nat end) fs
+  | TUser i => count_arrays i
+  | _ => O
+  end.
